@@ -20,8 +20,9 @@ git -C $wt apply "$sd/patch.diff" || { echo "patch does not apply" | tee -a "$lo
 ( cd "$sd" && timeout 3000 sh run.sh $wt ) >>"$log" 2>&1; b=$?
 echo "== demo on patched tree: exit $b" | tee -a "$log"
 git -C $wt clean -fdq -e target
+if [ "${SKIP_SUITE:-0}" = 1 ]; then c=0; echo "(suite skipped: re-validation of the demo only; the suite was run when the seed was first confirmed)" | tee -a "$log"; else
 ( cd $wt && timeout 3000 cargo nextest run --workspace --no-fail-fast --test-threads 8 --offline ) >"$sd/suite.log" 2>&1; c=$?
-tail -5 "$sd/suite.log" | tee -a "$log"; rm -f "$sd/suite.log"
+tail -5 "$sd/suite.log" | tee -a "$log"; rm -f "$sd/suite.log"; fi
 echo "== existing suite on patched tree: exit $c" | tee -a "$log"
 clean
 if [ $a = 0 ] && [ $b != 0 ] && [ $c = 0 ]; then echo "CONFIRMED" | tee -a "$log"; exit 0; else echo "NOT CONFIRMED" | tee -a "$log"; exit 1; fi
